@@ -1,6 +1,8 @@
 """C09 — results do not depend on materialization history or planner configuration."""
 from __future__ import annotations
 
+import random
+
 import re
 import warnings
 
@@ -104,6 +106,7 @@ def run(chk: Check):
                 "degree-limit / method, chunk-size, unify-chunks policy and limit; split_every varies inside the programs); every computed "
                 "value is compared with the history-free NumPy value; non-trivial = at least two computable members")
     chk.run_proofs()
+    model_family(chk, da)
     n = 2500 if chk.tier == "thorough" else 120
     for hid in range(n):
         run_history(chk, da, chk.rng, hid)
@@ -111,3 +114,335 @@ def run(chk: Check):
 
 def replay(path):
     print(open(path).read())
+
+
+# ==========================================================================
+# Model correspondence (coq/theories/History.v): the shared lowering cache under generated histories
+import gc  # noqa: E402
+from contextlib import contextmanager  # noqa: E402
+
+from common import cbool, coq_eval_cases, ctuple  # noqa: E402
+
+M_HEADER = "From DA Require Import PyBase History.\n"
+H_CASE = "table * list (name * name) * list observed"
+H_CHK = "Definition chk (c : " + H_CASE + ") : bool := let '(lt, stt, evs) := c in history_ok lt stt evs."
+CFG_KEYS = ["array.rechunk.threshold", "array.rechunk.degree-limit", "array.rechunk.method", "array.chunk-size",
+            "array.unify-chunks-policy", "array.unify-chunks-limit"]
+
+
+class CacheLog:
+    """wraps Expr.lower_once / ChunksFreeze.lower_once / _materialize._lower and records, for calls on the shared
+    _LOWER_CACHE only: requests (post-order, with top-level ones marked), their results, and the evictions of the weak
+    cache observed at every call boundary"""
+
+    def __init__(self):
+        from dask_array import _materialize
+        self.mat = _materialize
+        self.cache = _materialize._LOWER_CACHE
+        self.ids = {}
+        self.mirror = {}            # name -> result name, what the model believes is cached
+        self.items = None           # current materialization: list of item literals
+        self.results = None
+        self.table = {}             # (cfg, name) -> result on a miss
+        self.table_conflicts = []
+        self.simp = {}
+        self.depth = 0
+        self.lower_calls = 0
+        self.lower_in = self.lower_out = None
+        self.cfg = None
+        self.foreign = 0
+        self.record = None          # name -> expression object (cache_invariant_check only: keeps them alive)
+
+    def nid(self, name):
+        return self.ids.setdefault(name, len(self.ids) + 1)
+
+    def sync(self):
+        """entries the model has and the real (weak) cache lost -> Gc; entries only the real cache has -> foreign"""
+        real = dict((k, v._name) for k, v in list(self.cache.items()))
+        dead = [k for k in self.mirror if k not in real]
+        for k in dead:
+            del self.mirror[k]
+        self.foreign_keys = [k for k in real if k not in self.mirror]
+        return dead
+
+    @contextmanager
+    def installed(self):
+        import dask._expr as de
+        from dask_array._expr import ChunksFreeze
+        log = self
+        patched = []
+
+        def wrap(cls):
+            orig = cls.__dict__["lower_once"]
+
+            def lower_once(expr, lowered):
+                if lowered is not log.cache or log.items is None:
+                    return orig(expr, lowered)
+                dead = log.sync()
+                if dead:
+                    log.items.append("Gc [" + "; ".join(str(log.nid(k)) for k in dead) + "]%positive")
+                name = expr._name
+                if log.record is not None:
+                    log.record[name] = expr
+                hit = name in log.cache
+                top = log.depth == 0
+                log.depth += 1
+                try:
+                    out = orig(expr, lowered)
+                finally:
+                    log.depth -= 1
+                if not hit:
+                    key = (log.cfg, name)
+                    if key in log.table and log.table[key] != out._name:
+                        log.table_conflicts.append((key, log.table[key], out._name))
+                    log.table.setdefault(key, out._name)
+                dead = [k for k in log.sync() if k != name]
+                if dead:
+                    log.items.append("Gc [" + "; ".join(str(log.nid(k)) for k in dead) + "]%positive")
+                if not hit:
+                    log.mirror.setdefault(name, out._name)
+                log.items.append("Top" if top else f"Req {log.nid(name)}%positive")
+                log.results.append(log.nid(out._name))
+                return out
+            setattr(cls, "lower_once", lower_once)
+            patched.append((cls, orig))
+        wrap(de.Expr)
+        wrap(ChunksFreeze)
+        from dask_array.io._from_array import FromArray
+        fa_orig = FromArray.__dict__["lower_once"]
+
+        def fa_lower_once(expr, lowered):
+            if lowered is log.cache and log.items is not None and expr.operand("_name_is_exact"):
+                if log.depth == 0:
+                    log.items.append("TopSelf")
+                    log.results.append(log.nid(expr._name))
+                return expr
+            return fa_orig(expr, lowered)
+        FromArray.lower_once = fa_lower_once
+        patched.append((FromArray, fa_orig))
+        orig_lower = self.mat._lower
+
+        def _lower(expr, optimize_graph):
+            if log.items is None:
+                return orig_lower(expr, optimize_graph)
+            log.lower_calls += 1
+            n_before = len(log.results)
+            first = len(log.items)
+            out = orig_lower(expr, optimize_graph)
+            if log.lower_calls == 1:
+                log.lower_in, log.lower_out = expr._name, out._name
+                log.first_item = first
+            return out
+        self.mat._lower = _lower
+        try:
+            yield self
+        finally:
+            self.mat._lower = orig_lower
+            for cls, orig in patched:
+                setattr(cls, "lower_once", orig)
+
+
+def cfg_id(log, cfgs):
+    key = tuple(repr(dask.config.get(k, None)) for k in CFG_KEYS)
+    return cfgs.setdefault(key, len(cfgs) + 1)
+
+
+def model_history(chk, da, rng, hid, log):
+    from dask_array import _materialize
+    g = progs.Gen(rng, ops=progs.CORE_OPS, sources=[])
+    members = [g.program(rng.choice([1, 2, 3])) for _ in range(rng.choice([2, 3, 4]))]
+    sources = g.sources
+    gc.collect()
+    _materialize._LOWER_CACHE.clear()
+    log.mirror.clear()
+    log.table.clear()
+    log.simp.clear()
+    log.ids.clear()
+    log.table_conflicts.clear()
+    log.foreign = 0
+    cfgs = {}
+    colls = []              # (member index, collection or None when dropped)
+    evs = []
+    steps = []
+    skipped = None
+
+    def snapshot():
+        return "[" + "; ".join(f"({log.nid(k)}, {log.nid(v._name)})" for k, v in list(_materialize._LOWER_CACHE.items())) + "]%positive"
+
+    def emit(op, results, low):
+        evs.append(ctuple(op, "[" + "; ".join(map(str, results)) + "]%positive", "None" if low is None else f"(Some {low}%positive)", snapshot()))
+
+    def gc_step():
+        gc.collect()
+        dead = log.sync()
+        if dead:
+            emit("Evict [" + "; ".join(str(log.nid(k)) for k in dead) + "]%positive", [], None)
+
+    for s in range(rng.choice([4, 6, 9])):
+        action = rng.choice(["build", "materialize", "materialize", "materialize", "drop"])
+        cfg = rand_config(rng)
+        steps.append((action, sorted(cfg.items(), key=str)))
+        chk.count("model-step:" + action)
+        gc_step()
+        with dask.config.set(cfg), warnings.catch_warnings():
+            warnings.simplefilter("ignore")
+            if action == "build" or not colls:
+                i = rng.randrange(len(members))
+                try:
+                    x = progs.build(members[i][0], da, sources, memo={})
+                except Exception:  # noqa: BLE001
+                    continue
+                colls.append(x)
+                emit(f"Build {log.nid(x.expr._name)}%positive", [], None)
+                gc_step()
+                continue
+            c = rng.randrange(len(colls))
+            x = colls[c]
+            if action == "drop":
+                if x is not None:
+                    emit(f"Drop {c}%nat", [], None)
+                    colls[c] = None
+                    del x
+                    gc_step()
+                continue
+            if x is None:
+                continue
+            had = "_lowered_expr" in x.__dict__
+            log.items, log.results, log.depth, log.lower_calls = [], [], 0, 0
+            log.lower_in = log.lower_out = None
+            log.cfg = cfg_id(log, cfgs)
+            try:
+                x._lowered_expr      # (no local reference: the lowered tree must live and die with the collection)
+            except Exception:  # noqa: BLE001
+                skipped = "materialize-raises"
+                log.items = None
+                break
+            items, results = log.items, log.results
+            log.items = None
+            gc.collect()
+            dead = log.sync()
+            if dead:
+                items.append("Gc [" + "; ".join(str(log.nid(k)) for k in dead) + "]%positive")
+            if log.foreign_keys:
+                log.foreign += len(log.foreign_keys)
+            if had:
+                emit(f"Materialize {c}%nat {log.cfg}%positive {cbool(x._lowered_expr_optimize_graph)} []", [], None)
+                gc_step()
+                continue
+            if log.lower_calls != 1:
+                skipped = f"lower-calls-{log.lower_calls}"
+                break
+            if not any(i in ("Top", "TopSelf") for i in items):
+                skipped = "no-top-level-request"
+                break
+            opt = x._lowered_expr_optimize_graph
+            # simplify: the name the first top-level request was issued for
+            if opt:
+                simplified = x.expr.simplify()._name
+                log.simp[x.expr._name] = simplified
+            emit(f"Materialize {c}%nat {log.cfg}%positive {cbool(opt)} [" + "; ".join(items) + "]", results, log.nid(log.lower_out))
+            # the invariant on the REAL cache: every cached lowered form computes what its key's expression computes
+            gc_step()
+    if skipped:
+        chk.count("model-history-skipped:" + skipped)
+        return None
+    if log.table_conflicts:
+        chk.violation("one-pass lowering is not a function of (configuration, name)", {"conflicts": log.table_conflicts[:3], "steps": steps},
+                      signature={"class": "lower-not-functional"})
+    if log.foreign:
+        chk.count("model-history:foreign-cache-writes", log.foreign)
+    table = "[" + "; ".join(f"({k[0]}, {log.nid(k[1])}, {log.nid(v)})" for k, v in log.table.items()) + "]%positive"
+    simp = "[" + "; ".join(f"({log.nid(k)}, {log.nid(v)})" for k, v in log.simp.items()) + "]%positive"
+    chk.case(("model-history", hid, repr(steps)), nontrivial=len(evs) > 2, sample=None)
+    return ctuple(table, simp, "[" + "; ".join(evs) + "]"), {"members": [progs.show(p) for p, _ in members], "steps": steps}
+
+
+def cache_invariant_check(chk, da, rng, n, log):
+    """the invariant of C09_cache_invariant on the REAL cache: every entry name -> lowered form that rewrote something
+    is evaluated (exprs.eval_lowered of its complete lowering) against the expression it is filed under"""
+    import exprs
+    from dask_array import _materialize
+    done = 0
+    for prog, sources, want in progs.gen_programs(rng, n, ops=progs.CORE_OPS, depth_choices=(1, 2, 3)):
+        _materialize._LOWER_CACHE.clear()
+        log.mirror.clear()
+        cfg = rand_config(rng)
+        try:
+            with dask.config.set(cfg), warnings.catch_warnings():
+                warnings.simplefilter("ignore")
+                x = progs.build(prog, da, sources, memo={})
+                log.items, log.results, log.depth, log.record, log.cfg = [], [], 0, {}, 0
+                pairs = []
+                try:
+                    low = x._lowered_expr
+                    # the weak cache keeps only live forms: collect (key expression, cached form) pairs now
+                    pairs = [(log.record[k], v) for k, v in list(_materialize._LOWER_CACHE.items()) if k in log.record and v._name != k]
+                    pairs += [(log.record[k], log.record[v]) for (_c, k), v in log.table.items() if k in log.record and v in log.record and v != k]
+                finally:
+                    log.items, log.record = None, None
+                    log.table.clear()
+                seen = set()
+                for key_expr, form in pairs:
+                    if (key_expr._name, form._name) in seen or len(seen) >= 6:
+                        continue
+                    seen.add((key_expr._name, form._name))
+                    a = exprs.eval_expr(key_expr)
+                    b = exprs.eval_lowered(form.lower_completely())
+                    ok, why = progs.values_equal(b, a)
+                    chk.count("cache-invariant:entries")
+                    if not ok:
+                        chk.violation(f"a _LOWER_CACHE entry does not compute what its key's expression computes ({why})",
+                                      {"program": progs.show(prog), "key": key_expr._name, "form": form._name, "config": cfg},
+                                      signature={"class": "cache-invariant"})
+                    else:
+                        done += 1
+                del low
+        except Exception as e:  # noqa: BLE001
+            chk.count("cache-invariant:skipped:" + type(e).__name__)
+    chk.traces_validated += done
+    _materialize._LOWER_CACHE.clear()
+
+
+def f5_witness(chk, da):
+    """replay of the witness of C09_lower_context_free_refuted on the real code: one name, two configurations, two
+    forms; with the cache retained the second configuration is served the first one's form (values equal)"""
+    from dask_array import _materialize
+
+    def form(policy, clear):
+        if clear:
+            _materialize._LOWER_CACHE.clear()
+        with dask.config.set({"array.unify-chunks-policy": policy}), warnings.catch_warnings():
+            warnings.simplefilter("ignore")
+            x = da.from_array(np.arange(24), chunks=6) + da.from_array(np.arange(24), chunks=12)
+            low = _materialize._lower(x.expr, optimize_graph=False)
+            return x.expr._name, low._name, low.chunks, low, x.compute(scheduler="sync")
+    n1, f1, c1, keep1, v1 = form("auto", True)
+    n2, f2, c2, keep2, v2 = form("refine", True)
+    n3, f3, c3, keep3, v3 = form("auto", True)
+    n4, f4, c4, keep4, v4 = form("refine", False)
+    w = {"same_name": n1 == n2, "forms_differ_across_config": f1 != f2, "layouts": [c1, c2],
+         "stale_form_served": f4 == f3 and f4 != f2, "values_equal": bool(np.array_equal(v1, v2) and np.array_equal(v3, v4))}
+    chk.extra["lower_context_free_witness"] = w
+    chk.count("witness:lower-depends-on-config:" + ("reproduced" if w["same_name"] and w["forms_differ_across_config"] else "not-reproduced"))
+    chk.count("witness:stale-form-served:" + ("reproduced" if w["stale_form_served"] else "not-reproduced"))
+    if not w["values_equal"]:
+        chk.violation("value depends on the configuration under which the name was first lowered", w, signature={"class": "value", "config_keys": ["array.unify-chunks-policy"]})
+    _materialize._LOWER_CACHE.clear()
+
+
+def model_family(chk, da):
+    rng = random.Random(f"{chk.pid}-model-family-{chk.seed}")     # own stream: the checks above keep theirs
+    f5_witness(chk, da)
+    log = CacheLog()
+    cases, descs = [], []
+    n = 1500 if chk.tier == "thorough" else 100
+    with log.installed():
+        for hid in range(n):
+            r = model_history(chk, da, rng, hid, log)
+            if r is not None:
+                cases.append(r[0])
+                descs.append(r[1])
+        cache_invariant_check(chk, da, rng, 600 if chk.tier == "thorough" else 40, log)
+    for i in coq_eval_cases(M_HEADER, H_CASE, H_CHK, cases, chunk=40)[0]:
+        chk.tie_break("history-model", {"case": descs[i], "literal": cases[i][:1500], "literal_full": cases[i]})
+    chk.traces_validated += len(cases)
